@@ -327,7 +327,8 @@ impl Run {
             e.1 += 1;
             return;
         }
-        if self.violations.iter().any(|(s, _, _)| s == signature) || self.violations.len() >= 25 {
+        let cap = std::env::var("PV_MAX_VIOLATIONS").ok().and_then(|s| s.parse().ok()).unwrap_or(25usize);
+        if self.violations.iter().any(|(s, _, _)| s == signature) || self.violations.len() >= cap {
             self.count("violation_repeats", 1);
             return;
         }
@@ -437,19 +438,88 @@ impl Run {
     /// `threads` rayon threads) and merges what they observed. Used by workloads that set
     /// process-global prover knobs, which therefore handle one case at a time per process.
     pub fn run_shards(&mut self, n: u64, threads: usize, watchdog_s: u64) {
+        self.run_shards_supervised(n, threads, watchdog_s, None)
+    }
+
+    /// File in which a supervised worker records what it is about to do.
+    pub fn cur_file() -> Option<PathBuf> {
+        let d = std::env::var("PV_CUR_DIR").ok()?;
+        let (i, _) = Self::shard_spec()?;
+        Some(PathBuf::from(d).join(format!("shard-{i}.cur")))
+    }
+
+    /// Records the case that is about to run (supervised workers only; cheap no-op otherwise).
+    pub fn note_current(case: u64, signature: &str, detail: &Value) {
+        if let Some(f) = Self::cur_file() {
+            let _ = std::fs::write(f, serde_json::to_string(&json!({"case": case, "signature": signature, "detail": detail})).unwrap_or_default());
+        }
+    }
+
+    /// Cases below this index are skipped (set when a worker is restarted after it died).
+    pub fn skip_below() -> u64 {
+        std::env::var("PV_SKIP_CASES_BELOW").ok().and_then(|s| s.parse().ok()).unwrap_or(0)
+    }
+
+    /// Like `run_shards`, but a worker that dies without a result (abort, stack overflow, allocation
+    /// failure, kill by resource limit) is a VIOLATION candidate: the case it recorded with
+    /// `note_current` is reported under `process_died.<signature>` and the worker is restarted behind
+    /// that case. `cur_dir` = directory for the workers' progress files.
+    pub fn run_shards_supervised(&mut self, n: u64, threads: usize, watchdog_s: u64, cur_dir: Option<PathBuf>) {
+        if let Some(d) = &cur_dir {
+            let _ = std::fs::create_dir_all(d);
+        }
+        let mut pending: Vec<(u64, u64, u32)> = (0..n).map(|i| (i, 0u64, 0u32)).collect(); // (shard, skip_below, restarts)
+        let mut reported = 0u64;
+        while !pending.is_empty() {
+            let batch = std::mem::take(&mut pending);
+            let died = self.run_shard_batch(n, threads, watchdog_s, cur_dir.as_ref(), &batch);
+            for (i, skip, restarts, status) in died {
+                let cur = cur_dir.as_ref().map(|d| d.join(format!("shard-{i}.cur")));
+                let rec: Option<Value> = cur.as_ref().and_then(|f| std::fs::read_to_string(f).ok()).and_then(|s| serde_json::from_str(&s).ok());
+                match rec {
+                    Some(r) if cur_dir.is_some() => {
+                        let case = r["case"].as_u64().unwrap_or(0);
+                        let sig = r["signature"].as_str().unwrap_or("unknown").to_string();
+                        self.violation(&format!("process_died.{sig}"), case, json!({"exit": status, "shard": i, "while_running": r["detail"]}));
+                        self.count("worker_deaths_attributed", 1);
+                        if restarts < 12 && case + 1 > skip {
+                            pending.push((i, case + 1, restarts + 1));
+                        } else {
+                            self.inconclusive(&format!("shard {i}: restarted too often"));
+                        }
+                    }
+                    _ => self.inconclusive(&format!("shard {i}: no result (status {status})")),
+                }
+            }
+            reported += 1;
+            if reported > 14 {
+                break;
+            }
+        }
+    }
+
+    /// Spawns one worker per entry of `batch`; returns those that ended without a SUBRESULT.
+    fn run_shard_batch(&mut self, n: u64, threads: usize, watchdog_s: u64, cur_dir: Option<&PathBuf>, batch: &[(u64, u64, u32)]) -> Vec<(u64, u64, u32, String)> {
+        let mut died = vec![];
         let exe = match std::env::current_exe() {
             Ok(e) => e,
             Err(e) => {
                 self.inconclusive(&format!("cannot find own executable: {e}"));
-                return;
+                return died;
             }
         };
         let tier = if self.quick() { "quick" } else { "thorough" };
         let mut kids = vec![];
-        for i in 0..n {
-            let child = std::process::Command::new(&exe)
+        for &(i, skip, restarts) in batch {
+            let mut cmd = std::process::Command::new(&exe);
+            if let Some(d) = cur_dir {
+                cmd.env("PV_CUR_DIR", d);
+                let _ = std::fs::remove_file(d.join(format!("shard-{i}.cur")));
+            }
+            let child = cmd
                 .args([self.prop, tier])
                 .env("PV_SUB", "1")
+                .env("PV_SKIP_CASES_BELOW", skip.to_string())
                 .env("PV_SHARD", format!("{i}/{n}"))
                 .env("PV_VARIANTS", "")
                 .env("RAYON_NUM_THREADS", threads.to_string())
@@ -457,14 +527,14 @@ impl Run {
                 .stderr(std::process::Stdio::piped())
                 .spawn();
             match child {
-                Ok(c) => kids.push((i, c)),
+                Ok(c) => kids.push((i, skip, restarts, c)),
                 Err(e) => self.inconclusive(&format!("shard {i}: cannot start: {e}")),
             }
         }
         let deadline = Instant::now() + std::time::Duration::from_secs(watchdog_s);
         // reader threads so that a chatty child cannot block on a full pipe
         let mut handles = vec![];
-        for (i, mut c) in kids {
+        for (i, skip, restarts, mut c) in kids {
             let mut so = c.stdout.take().unwrap();
             let mut se = c.stderr.take().unwrap();
             let h_out = std::thread::spawn(move || {
@@ -477,10 +547,10 @@ impl Run {
                 let _ = std::io::Read::read_to_string(&mut se, &mut s);
                 s
             });
-            handles.push((i, c, h_out, h_err));
+            handles.push((i, skip, restarts, c, h_out, h_err));
         }
         let mut shards_ok = 0u64;
-        for (i, mut c, h_out, h_err) in handles {
+        for (i, skip, restarts, mut c, h_out, h_err) in handles {
             let status = loop {
                 match c.try_wait() {
                     Ok(Some(st)) => break Some(st),
@@ -499,21 +569,24 @@ impl Run {
             let err = h_err.join().unwrap_or_default();
             if status.is_none() {
                 self.inconclusive(&format!("shard {i}: watchdog ({watchdog_s}s) expired"));
+                let _ = (skip, restarts);
                 continue;
             }
             let line = out.lines().find_map(|l| l.strip_prefix("SUBRESULT "));
             let v: Value = match line.and_then(|l| serde_json::from_str(l).ok()) {
                 Some(v) => v,
                 None => {
-                    let tail: String = err.chars().rev().take(400).collect::<String>().chars().rev().collect();
-                    self.inconclusive(&format!("shard {i}: no result (status {:?}): {tail}", status.and_then(|s| s.code())));
+                    let tail: String = err.chars().rev().take(300).collect::<String>().chars().rev().collect();
+                    died.push((i, skip, restarts, format!("{:?} {tail}", status)));
                     continue;
                 }
             };
             shards_ok += 1;
             self.merge_sub(None, &v);
         }
-        self.set_extra("shards", json!({"requested": n, "reported": shards_ok, "threads_each": threads}));
+        let prev = self.extra.get("shards").and_then(|v| v["reported"].as_u64()).unwrap_or(0);
+        self.set_extra("shards", json!({"requested": n, "reported": prev + shards_ok, "threads_each": threads}));
+        died
     }
 
     /// Merges a worker's SUBRESULT. With `prefix` (build variants) counters are namespaced and the
